@@ -65,7 +65,8 @@ PATH_VALUES = ['0', '1', '-1', '99999999999999', '99999999999999999999999', '429
 HEADER_SETS = [
     {'X-Forwarded-Proto': 'https'}, {'X-HTTP-Scheme': 'https'}, {'X-Forwarded-Proto': 'gopher'},
     {'X-Forwarded-Proto': 'https', 'X-Forwarded-Host': 'cdn.example.test'}, {'X-Forwarded-For': '1.2.3.4, 5.6.7.8'},
-    {'Host': 'evil"<&>.example.test'}, {'Origin': 'null'}, {'Origin': 'https://other.example.test'},
+    {'Host': 'evil"<&>.example.test'}, {'Origin': 'http://player.example:http'}, {'Origin': 'http://player.example:99999'},
+    {'Origin': 'http://[::1'}, {'Origin': 'http://dashif.org'}, {'Origin': ''}, {'Origin': 'null'}, {'Origin': 'https://other.example.test'},
     {'Range': 'bytes=0-'}, {'Range': 'bytes=5-1'}, {'Range': 'lines=1-2'}, {'Accept': '*/*;q=0'}, {'Accept-Encoding': 'br;q=1.0, *;q=0'},
     {'Cookie': 'csrf=%%%; session=.'}, {'If-Modified-Since': 'garbage'}, {'If-None-Match': '"*"'},
     {'Content-Type': 'application/json'}, {'Content-Length': '0'}, {'Authorization': 'Bearer x.y.z'},
@@ -96,7 +97,9 @@ class Fuzz:
         from dlv.appenv import AppEnv, FIXTURES
         from dlv.mps import add_mps_db
         self.ctx, self.res = ctx, res
-        self.env = env = AppEnv()
+        # every other shard runs the documented default CORS configuration (a pattern of allowed origins)
+        # instead of the '*' the project's own tests use
+        self.env = env = AppEnv(allowed_domains='*' if ctx.shard % 2 else None)
         fb, ft = FIXTURES / 'bbb', FIXTURES / 'tears'
         self.spk = env.add_fixture_stream('bbb')
         env.add_fixture_stream('tears')                                  # clear-only stream
